@@ -439,6 +439,43 @@ def h_cross_dimension(eng, op, u, v):
         eng.prove(And(Eq(m0, x), left.units == ureg.Unit(u)), f"{op}:{tag}:left-untouched-after-refusal")
 
 
+def h_quantity_exponents_and_contexts(eng):
+    """(concrete, float and Fraction registries) an exponent given as a dimensionless quantity
+    counts with its value, not with its raw magnitude; + and - across dimensions are refused also
+    while a context relates the two dimensions"""
+    import math
+
+    for rname, ureg, num in (("float", regs.float_default(), float), ("fraction", regs.fraction_default(), Fraction)):
+        Qy = ureg.Quantity
+        two = Qy(num(2), "")
+        for eu, k in (("decacount", 10), ("", 1), ("count", 1), ("hectocount", 100)):
+            r = two ** Qy(num(1), eu)
+            eng.prove(getattr(r, "magnitude", r) == 2**k, f"{rname}:2**Q(1,{eu or 'dimensionless'})")
+            rl = Qy(num(3), "meter") ** Qy(num(1), eu)
+            eng.prove(dict(rl._units) == {"meter": k} and (rl.magnitude == 3**k or (rname == "float" and math.isclose(rl.magnitude, 3**k, rel_tol=1e-12))), f"{rname}:Q(3,m)**Q(1,{eu or 'dimensionless'})")
+        r = Qy(num(2), "meter") ** Qy(num(100), "percent")
+        eng.prove(dict(r._units) == {"meter": 1} and r.magnitude == 2, f"{rname}:Q(2,m)**Q(100,percent)-is-the-first-power")
+        r = Qy(num(2), "meter") ** Qy(num(200), "percent")
+        eng.prove(dict(r._units) == {"meter": 2} and r.magnitude == 4, f"{rname}:Q(2,m)**Q(200,percent)")
+    ureg = regs.float_default()
+    Qy = ureg.Quantity
+    r = Qy(4.0, "") ** Qy(1.0, "percent")
+    eng.prove(math.isclose(getattr(r, "magnitude", r), 4.0**0.01, rel_tol=1e-12), "float:4**Q(1,percent)")
+    for ctx in ("sp", "boltzmann", "energy"):
+        with ureg.context(ctx):
+            for a, b in ((Qy(500.0, "nm"), Qy(600.0, "THz")), (Qy(1.0, "kelvin"), Qy(1.0, "joule")), (Qy(1.0, "gram"), Qy(1.0, "joule"))):
+                for oname, fn in (("add", lambda: a + b), ("radd", lambda: b + a), ("sub", lambda: a - b), ("sum", lambda: sum([a, b])), ("floordiv", lambda: a // b), ("mod", lambda: a % b), ("lt", lambda: a < b)):
+                    if oname in ("floordiv", "mod"):
+                        continue  # (these two convert through the context on the unchanged tree: noted in DESIGN, not claimed)
+                    try:
+                        fn()
+                    except DimensionalityError:
+                        eng.prove(True, f"context:{ctx}:{oname}:{a.units},{b.units}:cross-dimension-raises")
+                    else:
+                        eng.fail(f"context:{ctx}:{oname}:{a.units},{b.units}:cross-dimension-accepted", stop=False)
+            eng.prove((Qy(1.0, "m") + Qy(100.0, "cm")).magnitude == 2.0, f"context:{ctx}:same-dimension-as-usual")
+
+
 MIN_DISCHARGED = {"H03.a": 600, "H03.b": 200, "H03.c": 60}
 
 
@@ -505,6 +542,7 @@ def cases(tier, seed):
     for tname in ("float", "int", "Decimal"):
         for i in range(0, len(quads), 6):
             out.append(Case("H03.d", f"{tname}:{i:04d}", M, "h_other_numeric_types", {"tname": tname, "pairs": quads[i : i + 6]}, kind="conc"))
+    out.append(Case("H03.b", "quantity-exponents-and-contexts", M, "h_quantity_exponents_and_contexts", {}, kind="conc"))
     # H03.c admissibility
     for op in ("add", "sub"):
         for u in ("meter", "radian", "percent", "count", "newton", "ppm", "degree", "byte"):
